@@ -16,6 +16,7 @@ import (
 
 	"github.com/ogen-go/ogen"
 	"github.com/ogen-go/ogen/gen"
+	"github.com/ogen-go/ogen/openapi/parser"
 	"github.com/ogen-go/ogen/uri"
 
 	"verif/internal/bx"
@@ -114,6 +115,48 @@ paths:
 	}
 	_, err = gen.NewGenerator(spec, gen.Options{})
 	return err == nil, false
+}
+
+// defaults parses a parameter whose style (when style == "") and explode are left out and
+// returns what the parser chose; ok=false when the document is refused.
+func defaults(loc, style, shape string) (st string, explode bool, ok bool) {
+	defer func() {
+		if e := recover(); e != nil {
+			ok = false
+		}
+	}()
+	path := "/x"
+	if loc == "path" {
+		path = "/x/{id}"
+	}
+	styleLine := ""
+	if style != "" {
+		styleLine = "\n          style: " + style
+	}
+	doc := fmt.Sprintf(`openapi: 3.0.3
+info: {title: t, version: "1"}
+paths:
+  %s:
+    get:
+      operationId: op
+      parameters:
+        - name: id
+          in: %s
+          required: %v%s
+          schema: %s
+      responses:
+        "200": {description: ok}
+`, path, loc, loc == "path", styleLine, schemaFor(shape))
+	spec, err := ogen.Parse([]byte(doc))
+	if err != nil {
+		return "", false, false
+	}
+	api, err := parser.Parse(spec, parser.Settings{})
+	if err != nil || len(api.Operations) != 1 || len(api.Operations[0].Parameters) != 1 {
+		return "", false, false
+	}
+	p := api.Operations[0].Parameters[0]
+	return string(p.Style), p.Explode, true
 }
 
 // ---- codecs ---------------------------------------------------------------------
@@ -410,6 +453,24 @@ func Check(r *core.Run) error {
 			admittedCfgs = append(admittedCfgs, c)
 		}
 	}
+	// defaults: style and / or explode left out of the document; the parser's choice is
+	// reported in the cfg fields, the given style (or "" = left out) in the text field
+	nDflt := 0
+	for _, loc := range []string{"path", "query", "header", "cookie"} {
+		for _, style := range []string{"", "simple", "label", "matrix", "form", "pipeDelimited", "deepObject"} {
+			for _, shape := range []string{"prim", "arr", "obj"} {
+				st, ex, ok := defaults(loc, style, shape)
+				if !ok {
+					continue
+				}
+				o := blank(cfgT{Loc: loc, Style: st, Explode: ex, Shape: shape})
+				o.K, o.Text = "dflt", bx.Ints(style)
+				all = append(all, o)
+				nDflt++
+			}
+		}
+	}
+	r.Cov("default_style_and_explode_rows", nDflt)
 	r.Cov("combinations", len(cl))
 	r.Cov("admitted_by_parser_and_generator", len(admittedCfgs))
 	var vals []valT
@@ -485,6 +546,13 @@ func Check(r *core.Run) error {
 }
 
 func describe(o observation) string {
+	if o.K == "dflt" {
+		given := bx.Str(o.Text)
+		if given == "" {
+			given = "(none)"
+		}
+		return fmt.Sprintf("in=%s %s parameter, document gives style %s and no explode -> parser chose style=%s explode=%v", o.Loc, o.Shape, given, o.Style, o.Explode)
+	}
 	if o.K == "adm" {
 		return fmt.Sprintf("admission of in=%s style=%s explode=%v shape=%s: %v", o.Loc, o.Style, o.Explode, o.Shape, o.Admitted)
 	}
